@@ -49,6 +49,9 @@ KF(ev) ==
     [] ev.op = "zip" /\ ev.fam = "view" /\ ev.as /\ ev.bs /\ ~ev.err /\ Len(ev.out) = Len(ev.mask)
        /\ (\A i \in 1..Len(ev.mask) : ev.mask[i] = 1 => Nrm(ev, ev.out)[i] = Nrm(ev, ev.a)[1])
          -> "C03-zip-view-scalars-inline-falsy-corrupted"   \* only rows taken from the falsy scalar are wrong
+    [] ev.op = "concat" /\ ev.fam = "ree" /\ ev.err /\ Len(ev.cols) >= 2
+       /\ (\A c \in 1..Len(ev.cols) : ev.cols[c] = <<>>)
+         -> "C03-concat-all-empty-run-arrays"
     [] OTHER -> ""
 
 Init == l = 1
